@@ -443,6 +443,53 @@ theorem total_tax_ignores_everything_but_22_23_2023
     · exact h23
   · intro s hs; cases hs
 
+/-- **Two returned states that agree on what a line reads agree on the line** (the induction step of whole-return
+independence): for a line whose regenerated read sets are the literal names `vn` / `inn`, ANY two states the
+solver returns for the year — different input files, prompts, requests, schedules — with the same loaded forms,
+whose stored values of `vn` and input answers of `inn` coincide, store the same value for the line (when both
+store one).  So a change of the inputs that reaches none of the names a line reads cannot reach the line. -/
+theorem solved_lines_agree {y : YearDecl} {c : ClassDecl} {l : LineDecl} {fname lname : String}
+    {vn inn : List String} (hR : ReadsOnly y c l fname lname vn inn)
+    {σ σ' : Sched String String} (hσ : SchedOK σ) (hσ' : SchedOK σ')
+    {P P' : Option (Nat → String → List String → Option String)}
+    {inp inp' : List (String × String)} {forms forms' extra extra' : List String}
+    {fuel qfuel fuel' qfuel' : Nat} {s s' : St String String String Val String}
+    (h : solve (mkCat y) σ P inp forms extra fuel qfuel = .ok (some s))
+    (h' : solve (mkCat y) σ' P' inp' forms' extra' fuel' qfuel' = .ok (some s'))
+    (hff : s.ff = s'.ff)
+    (hv : ∀ k ∈ vn, s.vf (litName fname k) = s'.vf (litName fname k))
+    (hi : ∀ k ∈ inn, s.inf (mkCat y) (litName fname k) = s'.inf (mkCat y) (litName fname k))
+    (x x' : Val) (hx : s.vf (fname ++ "." ++ lname) = some x)
+    (hx' : s'.vf (fname ++ "." ++ lname) = some x') : x = x' := by
+  have hC : CatWF (mkCat y) := Dsl.mkCat_wf y
+  have f := C03.solution_fixed_point hC hσ h _ x hx
+  have f' := C03.solution_fixed_point hC hσ' h' _ x' hx'
+  have e := reads_only_frame hR s.vf s'.vf (s.inf (mkCat y)) (s'.inf (mkCat y)) s.ff hv hi
+  rw [hff] at e f
+  rw [e, f'] at f
+  injection f with f
+  exact f.symm
+
+/-- instance: total tax (line 24) of two 2023 returns with the same lines 22 and 23 is the same, whatever else
+differs between the two input files (withholding boxes, payments, names, ...) -/
+theorem solved_total_tax_agrees_2023
+    {σ σ' : Sched String String} (hσ : SchedOK σ) (hσ' : SchedOK σ')
+    {P P' : Option (Nat → String → List String → Option String)}
+    {inp inp' : List (String × String)} {forms forms' extra extra' : List String}
+    {fuel qfuel fuel' qfuel' : Nat} {s s' : St String String String Val String}
+    (h : solve (mkCat year2023) σ P inp forms extra fuel qfuel = .ok (some s))
+    (h' : solve (mkCat year2023) σ' P' inp' forms' extra' fuel' qfuel' = .ok (some s'))
+    (hff : s.ff = s'.ff)
+    (h22 : s.vf "1040.22" = s'.vf "1040.22") (h23 : s.vf "1040.23" = s'.vf "1040.23")
+    (x x' : Val) (hx : s.vf "1040.24" = some x) (hx' : s'.vf "1040.24" = some x') : x = x' := by
+  refine solved_lines_agree reads_only_2023.1 hσ hσ' h h' hff ?_ ?_ x x' hx hx'
+  · intro k hk
+    simp only [List.mem_cons, List.mem_nil_iff, or_false] at hk
+    rcases hk with rfl | rfl
+    · exact h22
+    · exact h23
+  · intro k hk; cases hk
+
 end HabuVerif.C16
 
 #print axioms HabuVerif.C16.shapes_2021
@@ -463,6 +510,8 @@ end HabuVerif.C16
 #print axioms HabuVerif.C16.reads_only_2022
 #print axioms HabuVerif.C16.reads_only_2023
 #print axioms HabuVerif.C16.total_tax_ignores_everything_but_22_23_2023
+#print axioms HabuVerif.C16.solved_lines_agree
+#print axioms HabuVerif.C16.solved_total_tax_agrees_2023
 
 /-! ## Form 1040 line 25b (tax withheld on Forms 1099), `Proofs/C16Line25b.lean`
 
